@@ -5,6 +5,7 @@ import json
 import os
 from concurrent.futures import ThreadPoolExecutor
 
+import re as _re
 import sys
 
 import vlib
@@ -118,7 +119,7 @@ def to_coq(c):
     if o.get("crash") or o.get("outhex"):
         return None
     op = c["op"]
-    if op in ("file", "gort", "runes", "reuse", "targets", "lexfn", "hold"):
+    if op in ("file", "gort", "runes", "reuse", "targets", "lexfn", "hold", "bigrt"):
         return "CUtf8 [] []"      # compared by the oracle only
     if op in ("rstream", "rseries") and c.get("rmode") in (6, 7):
         return "CUtf8 [] []"      # a failing reader: oracle only (usage_oracle)
@@ -234,12 +235,26 @@ HEADER = ("From Coq Require Import List NArith Bool.\n"
           "Import ListNotations.\nLocal Open Scope N_scope.\n")
 
 
+def named_sizes(ck):
+    """The integers >= 256 that lexing/, jsonx/ and strtoken/ name (gen/jsonx_own.go gen_int_literals): the
+    bigtoken stream puts single tokens of these sizes through both round trips."""
+    try:
+        txt = open(os.path.join(vlib.COQ, "theories", "Gen", "JsonxOwn.v")).read()
+        m = _re.search(r"gen_int_literals : list N := \[([^\]]*)\]", txt)
+        vals = [int(x) for x in _re.findall(r"(\d+)%N", m.group(1))] if m else []
+    except OSError:
+        vals = []
+    ck.coverage["integers_named_in_source"] = vals
+    return ",".join(str(v) for v in vals)
+
+
 def run_harness(ck, mode, n, timeout=1500):
     binp = ck.build_harness("jsonx")
     cases = []
     if not binp:
         return cases
-    rc, out, err = vlib.sh2([binp, "-mode", mode, "-seed", str(ck.seed), "-n", str(n)], timeout=timeout)
+    rc, out, err = vlib.sh2([binp, "-mode", mode, "-seed", str(ck.seed), "-n", str(n), "-sizes", named_sizes(ck)],
+                            timeout=timeout)
     if rc != 0:
         ck.broken.append({"what": "harness run failed", "detail": err[-1500:]})
     for line in out.splitlines():
@@ -498,6 +513,10 @@ def usage_oracle(c):
     if op in ("reuse", "targets", "lexfn"):
         if o.get("note"):
             return op, o["note"]
+        return None
+    if op == "bigrt":
+        if o.get("note") or not o.get("ok"):
+            return "token-size:%s" % c.get("pre"), o.get("note") or "failed"
         return None
     if op == "fhist":
         if o.get("note"):
